@@ -19,8 +19,11 @@ structure RCfg where
   /-- `cfg.TargetDb`, `-1` = unset -/
   targetDb : Int := -1
   dbMap : List (Int × Int) := []
-  /-- `time.Now()` in milliseconds at replay time -/
+  /-- `time.Now()` in milliseconds when the replay of an entry starts -/
   now : Nat := 0
+  /-- (harness clock) milliseconds that pass per request on a connection: the
+      clock a worker reads for its next entry is `now + tick * requests so far` -/
+  tick : Nat := 0
   /-- the output filter's decisions, as parameters (like `Sender.PCfg`): `filterDb db` =
       `outFilter.FilterDb` (DB black list), `filterKey key` = `outFilter.FilterKey(key) ||
       outFilter.FilterSlot(key)` (reserved prefixes `redis-gunyu-checkpoint*` / `/redis-gunyu*`,
@@ -52,6 +55,35 @@ def Exists.has (ex : Exists) (db : Int) (k : Bytes) : Bool := ex.any (fun p => p
 def Exists.add (ex : Exists) (db : Int) (k : Bytes) : Exists := if ex.has db k then ex else (db, k) :: ex
 def Exists.del (ex : Exists) (db : Int) (k : Bytes) : Exists := ex.filter (fun p => !(p.1 == db && p.2 == k))
 
+/-- can a server of major version `major` load RDB value type `t`? (RESTORE of a
+    newer type answers `ERR Bad data format`): 4.x up to quicklist (14); 5/6 +
+    stream (15); 7.x + listpack encodings, quicklist 2, stream 2/3 (16–21); 8.x all -/
+def typeLoadable (major : Nat) (t : UInt8) : Bool :=
+  if major ≥ 8 then true
+  else if major ≥ 7 then t.toNat ≤ 21
+  else if major ≥ 5 then t.toNat ≤ 15
+  else t.toNat ≤ 14
+
+/-- the expansion path of `Replay` (restore off, payload too large, split value,
+    or — repaired — the fall-back after `Bad data format`): probe + DEL for a
+    first chunk, the expanded commands, PEXPIRE when the key has an expiry -/
+def expandEntry (cfg : RCfg) (db : Int) (ex : Exists) (e : Entry) (ot : OType) : List Cmd × Exists × Bool :=
+  let ttl := ttlOf cfg.now e.expireAt
+  if ot = .module then ([], ex, false) else
+  let probe : List Cmd :=
+    if e.obj.firstBin then
+      cmdB b!"exists" [e.key] :: (if ex.has db e.key then [cmdB b!"del" [e.key]] else [])
+    else []
+  match execCmd cfg.x e.obj with
+  | none => (probe, ex, false)
+  | some cs =>
+    let expire := if e.expireAt ≠ 0 then [cmdB b!"pexpire" [e.key, natToDec ttl]] else []
+    let ex1 := if e.obj.firstBin then ex.del db e.key else ex
+    let ex2 := if cs.isEmpty then ex1 else ex1.add db e.key
+    -- a key replayed with TTL 1 ms (already past its expiry) is gone before the next entry
+    let ex3 := if e.expireAt ≠ 0 ∧ ttl = 1 then ex2.del db e.key else ex2
+    (probe ++ cs ++ expire, ex3, true)
+
 /-- `RdbReplay.Replay` (policy `replace`): requests issued on the connection
     (current DB `db`), the new existence table, success -/
 def replayEntry (cfg : RCfg) (db : Int) (ex : Exists) (e : Entry) : List Cmd × Exists × Bool :=
@@ -66,28 +98,23 @@ def replayEntry (cfg : RCfg) (db : Int) (ex : Exists) (e : Entry) : List Cmd × 
     else
       let restoreCmd := cfg.enableRestore &&
         !(decide (e.obj.valueDumpSize > cfg.maxBulk) || e.obj.isSplited)
-      if !restoreCmd then
-        if ot = .module then ([], ex, false) else
-        let probe : List Cmd :=
-          if e.obj.firstBin then
-            cmdB b!"exists" [e.key] :: (if ex.has db e.key then [cmdB b!"del" [e.key]] else [])
-          else []
-        match execCmd cfg.x e.obj with
-        | none => (probe, ex, false)
-        | some cs =>
-          let expire := if e.expireAt ≠ 0 then [cmdB b!"pexpire" [e.key, natToDec ttl]] else []
-          let ex1 := if e.obj.firstBin then ex.del db e.key else ex
-          let ex2 := if cs.isEmpty then ex1 else ex1.add db e.key
-          (probe ++ cs ++ expire, ex2, true)
+      if !restoreCmd then expandEntry cfg db ex e ot
       else
         let params := [e.key, natToDec ttl, e.obj.dump] ++
           (if cfg.x.tgtMajor ≥ 5 then
             (if e.idle ≠ 0 then [b!"IDLETIME", natToDec e.idle] else []) ++
             (if e.freq ≠ 0 then [b!"FREQ", natToDec e.freq] else [])
            else [])
-        if ex.has db e.key then
-          ([cmdB b!"restore" params, cmdB b!"restore" (params ++ [b!"REPLACE"])], ex, true)
-        else ([cmdB b!"restore" params], ex.add db e.key, true)
+        let attempts := if ex.has db e.key
+          then [cmdB b!"restore" params, cmdB b!"restore" (params ++ [b!"REPLACE"])]
+          else [cmdB b!"restore" params]
+        if typeLoadable cfg.x.tgtMajor e.obj.rtype then
+          (attempts, if e.expireAt ≠ 0 ∧ ttl = 1 then ex.del db e.key else ex.add db e.key, true)
+        else
+          -- the target answers "Bad data format": the value is expanded instead, through
+          -- the same probe / DEL / PEXPIRE path as without RESTORE (repaired)
+          let (cs, ex', ok) := expandEntry cfg db ex e ot
+          (attempts ++ cs, ex', ok)
 
 /-- one worker connection -/
 structure Worker where
@@ -106,14 +133,15 @@ def workerStep (cfg : RCfg) (w : Worker) (ex : Exists) (e : Entry) : Worker × E
     let t := mapDb cfg e.db
     if t ≠ w.cur then { cur := t, log := w.log ++ [cmdB b!"select" [intToDec t]] } else w
   if cfg.filterKey e.key then (w1, ex, true) else
-  let (cs, ex', ok) := replayEntry cfg w1.cur ex e
+  let (cs, ex', ok) := replayEntry { cfg with now := cfg.now + cfg.tick * w1.log.length } w1.cur ex e
   ({ w1 with log := w1.log ++ cs }, ex', ok)
 
 def setAt {α} (l : List α) (i : Nat) (a : α) : List α := l.set i a
 
 /-- `distributeTask`: the worker an entry goes to (`idx` = the previous choice) -/
 def workerOf (n : Nat) (e : Entry) (idx : Nat) : Nat :=
-  if e.key.length > 0 then fnv32a e.key % n else (idx + 1) % n
+  -- every entry except a function library belongs to a key ("" is a valid key)
+  if e.key.length > 0 ∨ otypeOf e.obj.rtype ≠ some .function then fnv32a e.key % n else (idx + 1) % n
 
 /-- `distributeTask` + workers, in snapshot order -/
 def fanOut (cfg : RCfg) : List Entry → Nat → List Worker → Exists → List Worker × Exists × Bool
@@ -125,6 +153,17 @@ def fanOut (cfg : RCfg) : List Entry → Nat → List Worker → Exists → List
     let (w', ex', ok) := workerStep cfg w ex e
     if ok then fanOut cfg es idx' (ws.set idx' w') ex'
     else (ws.set idx' w', ex', false)
+
+/-- per entry, in snapshot order: the worker it was routed to and the requests
+    that worker issued for it (the trace `fanOut` folds into the workers' logs) -/
+def fanOutTrace (cfg : RCfg) : List Entry → Nat → List Worker → Exists → List (Nat × List Cmd)
+  | [], _, _, _ => []
+  | e :: es, idx, ws, ex =>
+    let n := ws.length
+    let idx' := workerOf n e idx
+    let w := ws.getD idx' {}
+    let (w', ex', ok) := workerStep cfg w ex e
+    (idx', w'.log.drop w.log.length) :: (if ok then fanOutTrace cfg es idx' (ws.set idx' w') ex' else [])
 
 /-- `sendRdb` on a snapshot: per-worker request logs and success (all entries
     applied and `Done` reached) -/
